@@ -43,7 +43,9 @@ PROP = {
             RUN_WSHANDSHAKE_SMALL, RUN_WSWRITE_SMALL],
         "keys": ["wsdecode.*", "wsmsg.*", "wshandshake.bytes-after-blank-line", "wswrite.malformed", "wswrite.incomplete", "wswrite.trailing"],
         # a consumer that keeps decoded frames in the source buffer's save area (the model has no save area)
-        "direct": [{"component": "wsdecode", "timeout": 600}],
+        "direct": [{"component": "wsdecode", "timeout": 600},
+                   # frames of 1-4 MiB under a raised maximum, segments that end a few bytes into the next frame's header
+                   {"component": "wsmsg", "timeout": 600}],
         "rule": "scripts = NewFrameCodec over a fresh ByteBuffer (max from {0,1,125,126,127,200,300,600,1000,65535,65536,70000,2^19,-1,-5,2^31}, "
                 "optional Reserve) followed by a byte string made of frames in every length class relative to max "
                 "(0,1,2,125,126,127,200,65535,65536,max-1,max,max+1, 2^32, 2^62, 2^63-1, 2^63, 2^63+k, 2^64-1; huge ones header-only), random header "
